@@ -117,3 +117,77 @@ theorem findAttr_encodeAttrs (env : List (Nat × Nat)) (d : List (Nat × String)
           exact findAttr_skip env g.f f.f.name _ _ (fun e => hne g hg e.symm)
 
 end Bpmn.Model.Xml
+
+namespace Bpmn.Model.Xml
+
+/-! What marshalling stores back is idempotent and touches text only (trees of any size). -/
+
+mutual
+theorem stored_idem (S : Schema) (tr : String → String) (h : ∀ s, tr (tr s) = tr s) :
+    ∀ n : Node, stored S tr (stored S tr n) = stored S tr n
+  | .mk ty attrs kids text => by
+    simp only [stored, storedFields_idem S tr h kids]
+    by_cases ht : trimsText S ty = true <;> simp [ht, h]
+theorem storedFields_idem (S : Schema) (tr : String → String) (h : ∀ s, tr (tr s) = tr s) :
+    ∀ kss : List (List Node), storedFields S tr (storedFields S tr kss) = storedFields S tr kss
+  | [] => by simp [storedFields]
+  | ks :: kss => by simp [storedFields, storedKids_idem S tr h ks, storedFields_idem S tr h kss]
+theorem storedKids_idem (S : Schema) (tr : String → String) (h : ∀ s, tr (tr s) = tr s) :
+    ∀ ks : List Node, storedKids S tr (storedKids S tr ks) = storedKids S tr ks
+  | [] => by simp [storedKids]
+  | c :: cs => by simp [storedKids, stored_idem S tr h c, storedKids_idem S tr h cs]
+end
+
+/-- the skeleton of a node: everything but the text -/
+inductive Skel where
+  | mk (ty : Nat) (attrs : List (Option String)) (kids : List (List Skel))
+
+mutual
+def skel : Node → Skel
+  | .mk ty attrs kids _ => .mk ty attrs (skelFields kids)
+def skelFields : List (List Node) → List (List Skel)
+  | [] => []
+  | ks :: kss => skelKids ks :: skelFields kss
+def skelKids : List Node → List Skel
+  | [] => []
+  | c :: cs => skel c :: skelKids cs
+end
+
+mutual
+theorem stored_skel (S : Schema) (tr : String → String) : ∀ n : Node, skel (stored S tr n) = skel n
+  | .mk ty attrs kids text => by simp [stored, skel, storedFields_skel S tr kids]
+theorem storedFields_skel (S : Schema) (tr : String → String) :
+    ∀ kss : List (List Node), skelFields (storedFields S tr kss) = skelFields kss
+  | [] => by simp [storedFields, skelFields]
+  | ks :: kss => by simp [storedFields, skelFields, storedKids_skel S tr ks, storedFields_skel S tr kss]
+theorem storedKids_skel (S : Schema) (tr : String → String) :
+    ∀ ks : List Node, skelKids (storedKids S tr ks) = skelKids ks
+  | [] => by simp [storedKids, skelKids]
+  | c :: cs => by simp [storedKids, skelKids, stored_skel S tr c, storedKids_skel S tr cs]
+end
+
+/-- the decoder handles the children of an element one after the other (building block of the
+tree-level round trip: the children written for one field, then those of the next) -/
+theorem parseKids_append (S : Schema) (env : List (Nat × Nat)) (efs : List FField) :
+    ∀ (a b : List Xml), parseKids S env efs (a ++ b) =
+      match parseKids S env efs a, parseKids S env efs b with
+      | some l1, some l2 => some (l1 ++ l2)
+      | _, _ => none := by
+  intro a
+  induction a with
+  | nil => intro b; simp [parseKids]; cases parseKids S env efs b <;> rfl
+  | cons x xs ih =>
+    intro b
+    cases x with
+    | elem n dc ats ks tx =>
+      simp only [List.cons_append, parseKids]
+      cases hf : findField env (.elem n dc ats ks tx) efs 0 with
+      | none => simp [ih b]
+      | some p =>
+        obtain ⟨i, f⟩ := p
+        simp only [ih b]
+        cases parseElem S env f.ty (.elem n dc ats ks tx) <;>
+          cases parseKids S env efs xs <;> cases parseKids S env efs b <;> simp
+
+
+end Bpmn.Model.Xml
